@@ -1,6 +1,6 @@
 import Generated.SSA_Num
 import Lemmas.GenTie
-import Lemmas.GenTieSpec
+import Lemmas.GenTieCompose
 import Props.C01
 /-! # C01, second tie — the definitions regenerated from the Go source are the verified model
 
@@ -65,7 +65,7 @@ open U128 (W)
   funext u n
   first
   | gen_tie [U128.mulW] [U128.mask32]
-  | (apply U128.toNat_inj; simp only [Gen.Uint128_Mul64, GenTieSpec.mul64_chain, C01.mul64_spec])
+  | (apply U128.toNat_inj; simp only [Gen.Uint128_Mul64, GenTieCompose.mul64_chain, C01.mul64_spec])
 
 /-! ## Uint128: ordering -/
 
@@ -184,17 +184,17 @@ open U128 (W)
   funext i
   first
   | gen_tie [I128.neg] [I128.minI128, U128.signBit]
-  | (apply I128.toInt_inj; have := GenTieSpec.toInt_bounds i; tie_spec [Gen.Int128_Neg])
+  | (apply I128.toInt_inj; have := GenTieCompose.toInt_bounds i; tie_spec [Gen.Int128_Neg])
 @[gen_eq] theorem Int128_Abs_eq : Gen.Int128_Abs = I128.abs := by
   funext i
   first
   | gen_tie [I128.abs] [U128.signBit]
-  | (apply I128.toInt_inj; have := GenTieSpec.toInt_bounds i; tie_spec [Gen.Int128_Abs])
+  | (apply I128.toInt_inj; have := GenTieCompose.toInt_bounds i; tie_spec [Gen.Int128_Abs])
 @[gen_eq] theorem Int128_AbsUint128_eq : Gen.Int128_AbsUint128 = I128.absUint128 := by
   funext i
   first
   | gen_tie [I128.absUint128, I128.toU] [I128.minI128, U128.signBit]
-  | (apply U128.toNat_inj; refine Int.natCast_inj.mp ?_; have := GenTieSpec.toInt_bounds i; tie_spec [Gen.Int128_AbsUint128])
+  | (apply U128.toNat_inj; refine Int.natCast_inj.mp ?_; have := GenTieCompose.toInt_bounds i; tie_spec [Gen.Int128_AbsUint128])
 
 /-! ## Int128: ordering -/
 
